@@ -57,7 +57,7 @@ type opCase struct {
 
 // fileCase says how the file under test is obtained.
 type fileCase struct {
-	Kind    string `json:"kind"`              // reader | json | api | gen | gentext
+	Kind    string `json:"kind"`              // reader | json | api | api-adv | api-padded | gen | genmut | gentext
 	Name    string `json:"name,omitempty"`    // provenance (fixture path, mutation), informational
 	TextHex string `json:"textHex,omitempty"` // reader / json: the exact input bytes
 	Opts    uint32 `json:"opts,omitempty"`    // reader / json: ValidateOpts mask given to the reader; api: SetValidation mask
@@ -129,6 +129,11 @@ func buildFile(fc fileCase) (f *ach.File, panicked any) {
 		return f, nil
 	case "gen": // valid file from the shared generator (built with the constructors, Create, Validate)
 		return genValidFile(fc), nil
+	case "genmut": // a generator file with one or two exported scalar fields changed afterwards
+		f := genValidFile(fc)
+		r := rng.New(fc.Seed ^ 0x5bd1e995)
+		mutateFields(r, f, r.Range(1, 2))
+		return f, nil
 	case "gentext": // the same file written out and read back by the Reader under the case's options
 		g := genValidFile(fc)
 		text, err := gen.Text(g, fc.Seed&1 == 0)
@@ -500,7 +505,7 @@ func kindClass(kind string) string {
 	switch kind {
 	case "reader", "gentext":
 		return "reader"
-	case "api", "api-adv", "api-padded", "gen":
+	case "api", "api-adv", "api-padded", "gen", "genmut":
 		return "api"
 	}
 	return kind
